@@ -100,9 +100,13 @@ def gen_history(rng: random.Random, nworkers: int, configs, hist_id: str):
         elif k < 0.92:
             ops.append({"op": "deepcopy", "w": w, "src": rng.choice(hs),
                         "hid": new_h(w)})
-        elif k < 0.95:
+        elif k < 0.94:
             ops.append({"op": "junk", "w": w, "seed": rng.randrange(10 ** 6),
                         "n": rng.randint(1, 8), "keep": rng.choice([0.0, 0.5])})
+        elif k < 0.96:
+            ops.append({"op": "churn", "w": w, "seed": rng.randrange(10 ** 6),
+                        "recipe": rng.randrange(len(recipes)),
+                        "n": rng.randint(4, 16)})
         else:
             ops.append({"op": "check", "w": w, "seed": rng.randrange(10 ** 6)})
         for wi in range(nworkers):
@@ -300,6 +304,14 @@ def run_history(fl: Fleet, hist, with_keys=True, stats=None, key_table=None):
                                                f" -> {k} (hash seed "
                                                f"{fl.configs[w]['hashseed']})"})
                     note_key(w, op["hid"], k, idx)
+            elif kind == "churn":
+                r = wk.call("churn", recipe=hist["recipes"][op["recipe"]],
+                            seed=op["seed"], n=op["n"], with_keys=with_keys)
+                for k, n in r["counters"].items():
+                    bump(k, n)
+                for v in r["violations"]:
+                    viol.append({"class": v["class"], "op_index": idx,
+                                 "detail": v["detail"]})
             elif kind == "junk":
                 wk.call("junk", seed=op["seed"], n=op["n"], keep=op["keep"])
                 bump("junk_ops")
